@@ -52,6 +52,29 @@ theorem C10_gen_innermost_wins (db : Db) (outer : List Frag) (inner : Frag) (i :
   rw [C10_gen_resolve]
   exact ⟨((C10_resolve db ⟨i, outer ++ [inner]⟩ none o).1 (C10_innermost_wins db outer inner i o true h)).1, rfl⟩
 
+/-- **Tie, `resolve_snref`.** For every short name, candidate list and expected type the rendered source has exactly the outcome
+    of the hand-written `resolveSnref` in strict mode -/
+theorem C10_gen_snref_eq (name : String) (items : List Obj) (exp : Option String) :
+    Gen.resolveSnrefE name items exp = Py.call errOfLink (resolveSnref name items exp true) :=
+  gen_resolveSnref_eq name items exp
+
+/-- **C10 short-name references, for the generated function** (`C10_snref_unique`): the source of `resolve_snref`, as it is now,
+    returns `o` iff `o` is the only item with that short name and has the expected type; otherwise it raises `OdxError` — it never
+    returns `None` and never another object -/
+theorem C10_gen_snref_unique (name : String) (items : List Obj) (exp : Option String) :
+    (∀ o, Gen.resolveSnrefE name items exp = .ok (some o) ↔ UniquelyNamed items name o ∧ o.isInst exp = true) ∧
+    (Gen.resolveSnrefE name items exp = .error .odxError ∨ ∃ o, Gen.resolveSnrefE name items exp = .ok (some o)) := by
+  rw [gen_resolveSnref_eq]
+  obtain ⟨h1, h2⟩ := C10_snref_unique name items exp
+  refine ⟨fun o => ?_, ?_⟩
+  · rw [← h1 o]
+    cases resolveSnref name items exp true with
+    | ok a => exact ⟨(fun h => by cases h; rfl), (fun h => by cases h; rfl)⟩
+    | error e => exact ⟨(fun h => by cases h), (fun h => by cases h)⟩
+  · rcases h2 with h | ⟨o, h⟩
+    · rw [h]; exact .inl rfl
+    · rw [h]; exact .inr ⟨o, rfl⟩
+
 /-! non-vacuity: two fragments that both store the id (the inner one wins), an unknown fragment (skipped with a warning), a
     wrong type, a dangling reference -/
 section Examples
@@ -68,6 +91,10 @@ example : Gen.resolveE exDb ⟨"nope", [fA, fB]⟩ none = .error .keyError := by
 example : Gen.resolveLenientE exDb ⟨"nope", [fA, fB]⟩ none = .ok none := by decide
 example : Resolves (stored exDb) ⟨"id", [fA, fB]⟩ o2 ∧ o2.isInst (some "Request") = true :=
   (C10_gen_resolve exDb ⟨"id", [fA, fB]⟩ (some "Request") o2).1 (by decide)
+example : Gen.resolveSnrefE "x" [o1, ⟨3, ["Request"], "y"⟩] (some "DataObjectProperty") = .ok (some o1) := by decide
+example : Gen.resolveSnrefE "x" [o1, o2] none = .error .odxError := by decide                       -- ambiguous
+example : Gen.resolveSnrefE "z" [o1, o2] none = .error .odxError := by decide                       -- unknown
+example : Gen.resolveSnrefE "x" [o1] (some "Request") = .error .odxError := by decide               -- wrong type
 end Examples
 
 end OdxVerif.OdxLink
